@@ -63,6 +63,10 @@ def populate(kind, obj, init):
         elif init == 'queue':
             obj.push(BIG)
             obj.push(2)
+        elif init == 'queue-expired-head':
+            obj.push(BIG, expire=1)
+            obj.push(2)
+            obj.set('zlast', BIGB, expire=1)
     elif kind == 'django':
         if init == 'one':
             obj.set('a', BIG)
@@ -111,6 +115,10 @@ def operations(kind):
                 ('pull', 'queue', lambda o, r: o.pull(**kw(r)), T, T),
                 ('peek', 'queue', lambda o, r: o.peek(**kw(r)), T, T),
                 ('peekitem', 'one', lambda o, r: o.peekitem(**kw(r)), T, T),
+                ('peek-expired-head', 'queue-expired-head',
+                 lambda o, r: o.peek(**kw(r)), T, T),
+                ('peekitem-expired-last', 'queue-expired-head',
+                 lambda o, r: o.peekitem(**kw(r)), T, T),
                 ('check', 'one', lambda o, r: len(o.check(**kw(r))), T, T),
                 ('iterkeys', 'one', lambda o, r: list(o.iterkeys()), False,
                  False),
@@ -138,6 +146,8 @@ def operations(kind):
             ('pop', 'three', lambda o, r: o.pop(), T, False),
             ('popleft', 'three', lambda o, r: o.popleft(), T, False),
             ('peek', 'three', lambda o, r: o.peek(), T, False),
+            ('peekleft', 'three', lambda o, r: o.peekleft(), T, False),
+            ('remove', 'three', lambda o, r: o.remove(1), T, False),
             ('rotate', 'three', lambda o, r: o.rotate(1), T, False),
             ('setitem', 'three', lambda o, r: o.__setitem__(0, BIGB), T, False),
             ('delitem', 'three', lambda o, r: o.__delitem__(0), T, False),
@@ -166,6 +176,20 @@ def state(dirs):
     return tuple((Snapshot(d).canon(), tuple(tree(d))) for d in dirs)
 
 
+def live_state(dirs):
+    """Contents as lookups see them: items whose expiry has not passed.
+    (An operation that times out may already have dropped expired items on
+    its way, like peek does with an expired head: that is expiry, not an
+    effect of the failed call.)"""
+    out = []
+    for d in dirs:
+        rows = [(repr(k), repr(v), e, t)
+                for k, v, e, t in Snapshot(d).contents()
+                if e is None or e > ENV.now]
+        out.append(tuple(rows))
+    return tuple(out)
+
+
 def rows(dirs):
     return sum(len(Snapshot(d).rows) for d in dirs)
 
@@ -190,6 +214,7 @@ def one_run(kind, settings, label, init, fn, retry, hook_args):
         populate(kind, obj, init)
         ENV.now += 2
         before = state(dirs)
+        before_live = live_state(dirs)
         nrows = rows(dirs)
         if hook_args is not None:
             hook = LockHook(lock_db(kind, obj, dirs, label), *hook_args)
@@ -208,7 +233,10 @@ def one_run(kind, settings, label, init, fn, retry, hook_args):
             ENV.hook = None
             hook.close()
         after = state(dirs)
-        return {'result': result, 'unchanged': before == after,
+        return {'result': result,
+                'unchanged': before == after or (
+                    before_live == live_state(dirs)
+                    and not [x for d in dirs for x in Snapshot(d).audit()]),
                 'after': after, 'log': hook.log, 'rows_before': nrows,
                 'rows_after': rows(dirs), 'begins': hook.begins}
     finally:
